@@ -118,7 +118,8 @@ def run_direct(c):
     t0 = time.time()
     th = threading.Thread(target=j, daemon=True)
     th.start()
-    th.join(JOIN_LIMIT)
+    limit = JOIN_LIMIT + 0.005 * len(c['levels'])       # floods need time in proportion, more so on a loaded machine
+    th.join(limit)
     if th.is_alive():
         out['join'] = ['timeout']
     out['elapsed'] = round(time.time() - t0, 2)
@@ -195,7 +196,7 @@ def oracle(c, o):
     exp = expected(c)
     n = len(c['levels'])
     if o['join'] == ['timeout']:
-        return (f'join() did not return within {JOIN_LIMIT} s (child exitcode {o["exitcode"]}); {len(o["handled"])} of {len(exp)} '
+        return (f'join() did not return within {JOIN_LIMIT + 0.005 * n:.0f} s (child exitcode {o["exitcode"]}); {len(o["handled"])} of {len(exp)} '
                 f'expected records were handled')
     if o['handled'] != exp:
         missing = [i for i in exp if i not in o['handled']]
